@@ -62,6 +62,7 @@ structure ASrc where
   bheSeen : Nat := 0
   lifeDue : Bool := false                -- lifecycle hooks expected in the current dispatch
   lifeOff : Bool := false                -- certainly not in the lifecycle set in the current dispatch (no hooks, or not enabled)
+  removedByPost : Bool := false          -- its own event processing returned Remove (explicit: nothing deferred may override it)
   lifeMaybe : Bool := false              -- a successful `update` of a source that is not enabled (its registration survived a failed
                                          -- unregistration) re-listed it: whether it has hooks is not judged until it is disabled or removed
   lastRet : Option Ret := none           -- what the user's callback returned last (in the current event processing)
@@ -185,6 +186,7 @@ def T.applyPost (t : T) (k : Nat) (r : Option PA) : T :=
       if nsub > 0 then { t with expectRegs := some (k, subs.map fun j => (.unregister, j)) } else t
     | .Remove =>
       let t := t.markGone k .absent
+      let t := t.modSrc k fun a => { a with removedByPost := true }
       if nsub > 0 then { t with expectRegs := some (k, subs.map fun j => (.unregister, j)) } else t
 
 def isTokenOp : COp → Option Nat
@@ -523,8 +525,17 @@ def onObs (t : T) (x : Obs) : T :=
     -- C06: a removed source that nobody else holds is released by the end of the operation / dispatch
     let t := t.srcs.foldl (fun (t : T) ((j, a) : Nat × ASrc) =>
       if a.everInserted && a.status == .absent && !a.kept && a.drops == 0 then
-        t.flag .C06 s!"source {j} was removed but not released by the end of the operation"
+        let t := t.flag .C06 s!"source {j} was removed but not released by the end of the operation"
+        -- C09: an explicit Remove takes precedence over whatever was deferred during the callback
+        t.flagIf a.removedByPost .C09 s!"source {j} returned Remove from its event processing but is still held by the loop: the explicit post action was not applied (overridden by a deferred request?)"
       else t) t
+    -- C06 / C09: the slot table holds exactly the sources that are inserted (enabled or disabled)
+    let inserted := (t.srcs.filter fun (p : Nat × ASrc) => p.2.everInserted && p.2.status != .absent).length
+    let t := if s.occ != inserted && !t.inDispatch then
+        let t := t.flag .C06 s!"{s.occ} slots are occupied but {inserted} sources are inserted: a removed source still occupies its slot (or an inserted one lost it)"
+        t.flagIf (t.srcs.any fun (p : Nat × ASrc) => p.2.removedByPost && p.2.drops == 0 && !p.2.kept) .C09
+          s!"{s.occ} slots are occupied but {inserted} sources are inserted, and a source that returned Remove has not been released: the explicit post action was not applied"
+      else t
     -- C15: a failed insertion leaves the bookkeeping as it was (a vacant slot may remain)
     let t := match t.insFailed, t.stBeforeInsert with
       | some k, some b =>
